@@ -12,6 +12,7 @@ import (
 	"bytes"
 	"fmt"
 	"os"
+	"sort"
 
 	"github.com/33cn/chain33/system/store/mavl/db/ticket"
 	"github.com/33cn/chain33/types"
@@ -74,7 +75,19 @@ func noise(e *mavlh.Eng, r *gen.Rand, kg *mavlh.KeyGen, known [][]byte, pending 
 		case 0: // pending update, later rolled back / committed / left pending
 			root, st := e.MemSet(parent, int64(r.Intn(60)), kg.Batch(r.Range(1, 20)))
 			if len(st) > 5 && st[:5] == "root " {
-				*pending = append(*pending, root)
+				same := bytes.Equal(root, parent)
+				for _, k := range known {
+					same = same || bytes.Equal(root, k)
+				}
+				if same {
+					// an update that re-writes existing values yields a root that is already committed. Leaving it
+					// uncommitted is the trigger shape of the known memTree defect (hunted separately, see hunt());
+					// here it is committed at once so that the differential stream stays inside the modelled behaviour.
+					e.Commit(root)
+					out.Stat("noise_same_root_committed", 1)
+				} else {
+					*pending = append(*pending, root)
+				}
 			}
 		case 1: // unrelated direct set (side branch)
 			e.Set(parent, int64(r.Intn(60)), kg.Batch(r.Range(1, 20)))
@@ -151,7 +164,42 @@ func runVariant(e *mavlh.Eng, r *gen.Rand, kg *mavlh.KeyGen, script []step, cfg 
 		}
 	}
 	if len(script) > 0 {
-		e.Info(roots[len(script)-1])
+		last := roots[len(script)-1]
+		e.Info(last)
+		// values at the final main-line root equal the last writes. Not read under MVCC: the records carry no
+		// values there and what Get returns depends on what memTree happens to hold (values live in the MVCC store).
+		if cfg.MVCC {
+			return roots
+		}
+		want := map[string][]byte{}
+		for i := len(script) - 1; i >= 0; i = script[i].parent {
+			for j := len(script[i].kvs) - 1; j >= 0; j-- {
+				kv := script[i].kvs[j]
+				if _, seen := want[string(kv.K)]; !seen {
+					want[string(kv.K)] = kv.V
+				}
+			}
+		}
+		var keys [][]byte
+		for k := range want {
+			keys = append(keys, []byte(k))
+			if len(keys) >= 6 {
+				break
+			}
+		}
+		sort.Slice(keys, func(a, b int) bool { return bytes.Compare(keys[a], keys[b]) < 0 })
+		vals, st := e.Get(last, keys)
+		if st == "panic" {
+			out.Pred("C02|Store.Get|panic", tag)
+		} else {
+			for i, k := range keys {
+				w := want[string(k)]
+				if !bytes.Equal(vals[i], w) {
+					out.Pred("C02|Store.Get|wrong-value-at-final-root", fmt.Sprintf("%s key=%x got=%x want=%x", tag, k, vals[i], w))
+				}
+			}
+			out.Stat("final_value_reads", int64(len(keys)))
+		}
 	}
 	return roots
 }
@@ -190,8 +238,9 @@ func history(e *mavlh.Eng, r *gen.Rand) {
 
 type outcome struct{ op, st string }
 
-func huntScenario(e *mavlh.Eng, r *gen.Rand, cfg mavlh.Cfg, kg *mavlh.KeyGen, base [][]mavlh.KV, kvs, kvs2 []mavlh.KV,
-	h1, h2 int64, pendingKind int, test bool) []outcome {
+// huntScenario: shape 0 = "same content at another height", shape 1 = "no-op update (re-writes existing values)".
+func huntScenario(e *mavlh.Eng, r *gen.Rand, cfg mavlh.Cfg, base [][]mavlh.KV, kvs, kvs2 []mavlh.KV,
+	h1, h2 int64, pendingKind, shape int, test bool) []outcome {
 	e.New(cfg)
 	var res []outcome
 	var parent []byte
@@ -203,57 +252,111 @@ func huntScenario(e *mavlh.Eng, r *gen.Rand, cfg mavlh.Cfg, kg *mavlh.KeyGen, ba
 		parent = root
 	}
 	if test {
-		switch pendingKind {
-		case 0: // computed, then rolled back
-			root, _ := e.MemSet(parent, h1, kvs)
-			e.Rollback(root)
-		case 1: // computed, left pending
-			e.MemSet(parent, h1, kvs)
-		case 2: // computed and committed (control for the control: must be harmless)
-			root, _ := e.MemSet(parent, h1, kvs)
-			e.Commit(root)
+		root, st := e.MemSet(parent, h1, kvs)
+		if len(st) > 5 && st[:5] == "root " {
+			switch pendingKind {
+			case 0:
+				e.Rollback(root)
+			case 2:
+				e.Commit(root)
+			}
 		}
 	}
-	root, st := e.Set(parent, h2, kvs)
-	res = append(res, outcome{"Store.Set", st})
-	if len(st) < 5 || st[:5] != "root " {
+	rootOf := func(st string) bool { return len(st) > 5 && st[:5] == "root " }
+	cur := parent
+	if shape == 0 { // the same writes for real, at another height
+		root, st := e.Set(parent, h2, kvs)
+		res = append(res, outcome{"Store.Set", st})
+		if !rootOf(st) {
+			return res
+		}
+		cur = root
+	}
+	root, st := e.MemSet(cur, h2+1, kvs2)
+	res = append(res, outcome{"Store.MemSet", st})
+	if !rootOf(st) {
 		return res
 	}
-	_, st = e.MemSet(root, h2+1, kvs2)
-	res = append(res, outcome{"Store.MemSet", st})
-	_, st = e.Set(root, h2+1, kvs2)
+	res = append(res, outcome{"Store.Commit", e.Commit(root)})
+	root2, st := e.Set(root, h2+2, kvs)
 	res = append(res, outcome{"Store.Set", st})
+	if !rootOf(st) {
+		return res
+	}
+	// a fresh process (empty memTree) must be able to read everything that was committed
+	e.ColdReopen()
+	for _, rt := range [][]byte{root, root2} {
+		got, st := e.Iter(rt, nil, nil, true, -1)
+		if st != "panic" {
+			st = fmt.Sprintf("%d pairs %s", len(got), mavlh.ShowKVs(got))
+		}
+		res = append(res, outcome{"read-after-restart", st})
+	}
 	return res
 }
 
 func hunt(e *mavlh.Eng, r *gen.Rand) {
-	n := gen.Scale(24, 1000)
-	for i := 0; i < n; i++ {
-		cfg := mavlh.CfgFromInt(r.Intn(32))
-		if r.Chance(2, 3) {
-			cfg.MemTree = true
+	n := gen.Scale(20, 1000)
+	type scen struct {
+		cfg        mavlh.Cfg
+		base       [][]mavlh.KV
+		kvs, kvs2  []mavlh.KV
+		h1, h2     int64
+		kind, shape int
+	}
+	kv := func(k string, v byte) mavlh.KV { return mavlh.KV{K: []byte(k), V: []byte{v}} }
+	// the documented witnesses first (deterministic replay of the known finding), then generated scenarios
+	fixed := []scen{
+		{mavlh.Cfg{Prefix: true, MemTree: true}, [][]mavlh.KV{{kv("a", 1), kv("b", 2)}}, []mavlh.KV{kv("c", 3)}, []mavlh.KV{kv("e", 5)}, 5, 6, 0, 0},
+		{mavlh.Cfg{Prefix: true, MemTree: true}, [][]mavlh.KV{{kv("a", 1), kv("b", 2)}}, []mavlh.KV{kv("c", 3)}, []mavlh.KV{kv("e", 5)}, 5, 6, 1, 0},
+		{mavlh.Cfg{Prefix: true, MemTree: true}, [][]mavlh.KV{{kv("a", 1), kv("b", 2), kv("c", 3), kv("d", 4)}}, []mavlh.KV{kv("d", 4)}, []mavlh.KV{kv("a", 9)}, 13, 2, 0, 1},
+	}
+	for i := 0; i < n+len(fixed); i++ {
+		var sc scen
+		if i < len(fixed) {
+			sc = fixed[i]
+		} else {
+			sc.cfg = mavlh.CfgFromInt(r.Intn(32))
+			if r.Chance(2, 3) {
+				sc.cfg.MemTree = true
+			}
+			if r.Chance(1, 2) {
+				sc.cfg.Prefix = true
+			}
+			kg := mavlh.NewKeyGen(r, []int{3, 10, 50}[r.Intn(3)])
+			for j := r.Range(1, 3); j > 0; j-- {
+				sc.base = append(sc.base, kg.Batch(r.Range(1, 12)))
+			}
+			sc.shape = r.Intn(2)
+			sc.kvs = kg.Batch(r.Range(1, 6))
+			if sc.shape == 1 { // re-write values that are already there
+				last := sc.base[len(sc.base)-1]
+				final := map[string][]byte{}
+				for _, b := range sc.base {
+					for _, x := range b {
+						final[string(x.K)] = x.V
+					}
+				}
+				sc.kvs = nil
+				for j := r.Range(1, 3); j > 0; j-- {
+					k := last[r.Intn(len(last))].K
+					sc.kvs = append(sc.kvs, mavlh.KV{K: k, V: final[string(k)]})
+				}
+			}
+			sc.kvs2 = kg.Batch(r.Range(1, 6))
+			sc.h2 = int64(len(sc.base) + 1 + r.Intn(3))
+			sc.h1 = sc.h2 + int64(r.Range(1, 9))
+			if r.Chance(1, 6) {
+				sc.h1 = sc.h2
+			}
+			sc.kind = r.Pick(3, 3, 1)
 		}
-		if r.Chance(1, 2) {
-			cfg.Prefix = true
-		}
-		kg := mavlh.NewKeyGen(r, []int{3, 10, 50}[r.Intn(3)])
-		var base [][]mavlh.KV
-		for j := r.Range(1, 3); j > 0; j-- {
-			base = append(base, kg.Batch(r.Range(1, 12)))
-		}
-		kvs := kg.Batch(r.Range(1, 6))
-		kvs2 := kg.Batch(r.Range(1, 6))
-		h2 := int64(len(base) + 1 + r.Intn(3))
-		h1 := h2 + int64(r.Range(1, 3))
-		if r.Chance(1, 6) {
-			h1 = h2
-		}
-		pk := r.Pick(3, 3, 1)
-		control := huntScenario(e, r, cfg, kg, base, kvs, kvs2, h1, h2, pk, false)
-		test := huntScenario(e, r, cfg, kg, base, kvs, kvs2, h1, h2, pk, true)
+		control := huntScenario(e, r, sc.cfg, sc.base, sc.kvs, sc.kvs2, sc.h1, sc.h2, sc.kind, sc.shape, false)
+		test := huntScenario(e, r, sc.cfg, sc.base, sc.kvs, sc.kvs2, sc.h1, sc.h2, sc.kind, sc.shape, true)
 		out.Stat("hunt_scenarios", 1)
-		out.Stat(fmt.Sprintf("hunt_cfg_memtree_%v_prefix_%v", cfg.MemTree, cfg.Prefix || cfg.Prune), 1)
-		kind := []string{"rolled-back", "left-pending", "committed"}[pk]
+		out.Stat(fmt.Sprintf("hunt_shape_%d_memtree_%v_prefix_%v", sc.shape, sc.cfg.MemTree, sc.cfg.Prefix || sc.cfg.Prune), 1)
+		kind := []string{"rolled-back", "left-pending", "committed"}[sc.kind]
+		shape := []string{"update-of-same-content", "no-op-update"}[sc.shape]
 		for j := range control {
 			if j >= len(test) {
 				break
@@ -261,17 +364,17 @@ func hunt(e *mavlh.Eng, r *gen.Rand) {
 			if control[j].st == test[j].st {
 				continue
 			}
-			what := "root-differs"
+			what := "result-differs"
 			if test[j].st == "panic" {
 				what = "panic"
 			}
-			out.Pred(fmt.Sprintf("C02|%s|%s-after-%s-update-of-same-content", test[j].op, what, kind),
-				fmt.Sprintf("cfg=%s h1=%d h2=%d base=%d batches control=%s test=%s", cfg.Bits(), h1, h2, len(base), control[j].st, test[j].st))
+			out.Pred(fmt.Sprintf("C02|%s|%s-after-%s-%s", test[j].op, what, kind, shape),
+				fmt.Sprintf("cfg=%s h1=%d h2=%d base=%d batches control=%.80s test=%.80s", sc.cfg.Bits(), sc.h1, sc.h2, len(sc.base), control[j].st, test[j].st))
 			out.Stat("hunt_failures", 1)
 			break
 		}
 	}
-	out.Sample("hunt: set base; [mset P h1 kvs; rollback|keep|commit]; set P h2 kvs -> R; mset R ..; set R ..  (control vs test, same cfg)")
+	out.Sample("hunt: set base -> P; [mset P h1 kvs; rollback|keep|commit]; (set P h2 kvs)?; mset/commit/set on top; cold restart; read all  (control vs test, same cfg)")
 }
 
 func main() {
@@ -287,7 +390,7 @@ func main() {
 		hunt(e, r)
 		return
 	}
-	n := gen.Scale(14, 200)
+	n := gen.Scale(12, 200)
 	for i := 0; i < n; i++ {
 		history(e, r)
 	}
